@@ -40,6 +40,9 @@ def pool_name(k):
     if k % 9 == 5:
         # a zero-padded number after a letter: written with a blank by the (a3,i2) quirk
         return first + LET[(k // 90) % 26] + LET[(k // (90 * 26)) % 26] + '0%d' % (k % 10)
+    if k % 9 == 7:
+        # a digit in column 3 and a number below ten: 'qa105' is printed 'qa1 5' by the simulator
+        return first + LET[(k // 90) % 26] + '%d' % ((k // 13) % 10) + '0%d' % (k % 10)
     return first + LET[(k // 90) % 26] + LET[(k // (90 * 26)) % 26] + '%2d' % (10 + k % 90)
 
 
@@ -48,7 +51,7 @@ class Model(object):
 
     def __init__(self):
         self.b = {}      # name -> [volume, rock name, centre tuple|None]
-        self.c = {}      # frozenset({a, b}) -> dict(first, second, area, direction, dist{}, dircos)
+        self.c = {}      # (first, second) -> dict(first, second, area, direction, dist{}, dircos)
         self.r = set()   # registered rock type names
 
     def copy(self):
@@ -70,7 +73,7 @@ def extract(grid):
         m.b[blk.name] = [blk.volume, blk.rocktype.name, centre_t(blk.centre)]
     for con in grid.connectionlist:
         a, b = con.block[0].name, con.block[1].name
-        m.c[frozenset((a, b))] = {
+        m.c[(a, b)] = {
             'first': a, 'second': b, 'area': con.area, 'direction': con.direction,
             'dist': {a: con.distance[0], b: con.distance[1]}, 'dircos': con.dircos}
     m.r = set(rt.name for rt in grid.rocktypelist)
@@ -137,10 +140,17 @@ def compare(model, got, physics, digits=False, what=''):
         extra = sorted(set(got.b) - set(model.b))[:4]
         raise Violation('P1' if physics else 'I5', '%sblock set differs from the reference model: '
                         'lost %r, unexpected %r' % (what, lost, extra))
-    if set(model.c) != set(got.c):
-        lost = sorted(tuple(sorted(k)) for k in set(model.c) - set(got.c))[:3]
-        extra = sorted(tuple(sorted(k)) for k in set(got.c) - set(model.c))[:3]
-        raise Violation('P2' if physics else 'I5', '%sconnected pairs differ from the reference '
+    # a connection may have been re-listed with its blocks swapped (reorder): same connection
+    pairing = {}
+    for k in model.c:
+        if k in got.c:
+            pairing[k] = k
+        elif k[::-1] in got.c and k[::-1] not in model.c:
+            pairing[k] = k[::-1]
+    if len(pairing) != len(model.c) or len(got.c) != len(model.c):
+        lost = sorted(k for k in model.c if k not in pairing)[:3]
+        extra = sorted(set(got.c) - set(pairing.values()))[:3]
+        raise Violation('P2' if physics else 'I5', '%sconnections differ from the reference '
                         'model: lost %r, unexpected %r' % (what, lost, extra))
     if not physics:
         if model.r != got.r:
@@ -160,7 +170,7 @@ def compare(model, got, physics, digits=False, what=''):
                                              not all(eq(x, y, dc) for x, y in zip(cen, gc))):
             raise Violation('P1', '%sblock %r centre %r, expected %r' % (what, n, gc, cen))
     for k, mc in model.c.items():
-        gc = got.c[k]
+        gc = got.c[pairing[k]]
         pair = tuple(sorted(k))
         if not eq(mc['area'], gc['area'], dv):
             raise Violation('P2', '%sconnection %r area %r, expected %r'
@@ -188,7 +198,7 @@ class GridMachineBase(Machine):
     PHYSICS = False
     OPS = ('ADD_BLOCK', 'DEL_BLOCK', 'ADD_CON', 'DEL_CON', 'ADD_ROCK', 'DEL_ROCK',
            'RENAME_ROCK', 'RENAME', 'REORDER', 'DEMOTE', 'CLEAN_ROCK', 'SET_ROCK', 'MINC',
-           'ADD_GRID', 'EMBED', 'PERSIST', 'INIT')
+           'ADD_GRID', 'EMBED', 'PERSIST', 'CALC_CENTRES', 'INIT')
 
     @classmethod
     def knobs(cls, rng, tier):
@@ -412,15 +422,17 @@ class GridMachineBase(Machine):
             old = g.connectionlist[ch[0] % len(g.connectionlist)]
             a, b = old.block
             self.ctx.probes['add_connection_replaces'] += 1
-        elif a is b or frozenset((a.name, b.name)) in self.model.c:
+        elif a is b or (a.name, b.name) in self.model.c:
             return False
+        elif (b.name, a.name) in self.model.c and ch[2] % 4 != 3:
+            return False          # (one time in four: a second connection, listed the other way)
         d = [(0.5, 1.0, 12.5)[ch[2] % 3], (0.25, 2.0, 50.0)[(ch[2] // 3) % 3]]
         area = (1.0, 4.0, 250.0)[ch[3] % 3]
         dircos = (0.0, -1.0, 1.0, 0.6, None)[(ch[3] // 3) % 5]
         direction = 1 + (ch[3] // 15) % 3
         self.call(lambda: g.add_connection(self.tg.t2connection([a, b], direction, list(d), area,
                                                                dircos)), 'add_connection')
-        self.model.c[frozenset((a.name, b.name))] = {
+        self.model.c[(a.name, b.name)] = {
             'first': a.name, 'second': b.name, 'area': area, 'direction': direction,
             'dist': {a.name: d[0], b.name: d[1]}, 'dircos': dircos}
         self.geo_valid = False
@@ -438,7 +450,7 @@ class GridMachineBase(Machine):
             self.ctx.probes['delete_connection_reversed_pair'] += 1
             return 'noop'
         self.call(lambda: g.delete_connection(key), 'delete_connection')
-        del self.model.c[frozenset(key)]
+        del self.model.c[tuple(key)]
         self.geo_valid = False
 
     def op_ADD_ROCK(self, ch):
@@ -536,7 +548,15 @@ class GridMachineBase(Machine):
             return False
         if self.PHYSICS:
             self.ctx.probes['rename_' + tag] += 1
-        self.call(lambda: g.rename_blocks(dict(mp)), 'rename_blocks')
+        def onfile(n):
+            # the name as the simulator prints it: rename_blocks() documents that it repairs
+            # such names in the map it is given
+            return '%3s%2d' % (n[0:3], int(n[3:5])) if (n[3:5].isdigit() and n[2].isdigit()) else n
+        arg = dict(mp)
+        if ch[0] % 8 >= 4 and any(onfile(a) != a or onfile(b) != b for a, b in mp.items()):
+            arg = dict((onfile(a), onfile(b)) for a, b in mp.items())
+            self.ctx.probes['rename_map_in_on_file_form'] += 1
+        self.call(lambda: g.rename_blocks(arg), 'rename_blocks')
         m = self.model
         m.b = dict((mp.get(nm, nm), v) for nm, v in m.b.items())
         newc = {}
@@ -544,7 +564,7 @@ class GridMachineBase(Machine):
             v = dict(v)
             v['first'], v['second'] = mp.get(v['first'], v['first']), mp.get(v['second'], v['second'])
             v['dist'] = dict((mp.get(nm, nm), d) for nm, d in v['dist'].items())
-            newc[frozenset((v['first'], v['second']))] = v
+            newc[(v['first'], v['second'])] = v
         m.c = newc
         self.geo_valid = False
         return tag
@@ -566,7 +586,7 @@ class GridMachineBase(Machine):
             rng.shuffle(cn)
             if mode & 4:
                 for i in range(len(cn)):
-                    if rng.random() < 0.5:
+                    if rng.random() < 0.5 and cn[i][::-1] not in g.connection:
                         cn[i] = cn[i][::-1]
                         nrev += 1
         if bn is None and cn is None:
@@ -575,6 +595,14 @@ class GridMachineBase(Machine):
         if nrev:
             self.ctx.probes['reorder_reversed_connections'] += 1
         return 'r%d' % min(nrev, 2)
+
+    def op_CALC_CENTRES(self, ch):
+        """Block centres recomputed from the geometry the grid was generated from: whatever the
+        current order of the blocks, every block keeps its own centre."""
+        if not self.geo_valid or self.geo is None:
+            return False
+        self.call(lambda: self.grid.calculate_block_centres(self.geo), 'calculate_block_centres')
+        self.ctx.probes['centres_recalculated'] += 1
 
     def op_DEMOTE(self, ch):
         g = self.grid
@@ -661,7 +689,7 @@ class GridMachineBase(Machine):
                 mrock = 'X' + rock[1:]
                 m.b[mn] = [V * fr[lev], mrock, cen]
                 m.r.add(mrock)
-                m.c[frozenset((last, mn))] = {'first': last, 'second': mn, 'chain': True}
+                m.c[(last, mn)] = {'first': last, 'second': mn, 'chain': True}
                 last = mn
         self.check_minc(before, proc, fr, nf)
         self.model = extract(g)          # distances/areas of the new chain are taken as built
@@ -681,10 +709,9 @@ class GridMachineBase(Machine):
                             'lost %r unexpected %r' % (sorted(set(m.b) - set(got.b))[:3],
                                                        sorted(set(got.b) - set(m.b))[:3]))
         if set(got.c) != set(m.c):
-            raise Violation(code, 'after MINC the connected pairs are not originals + one chain '
+            raise Violation(code, 'after MINC the connections are not originals + one chain '
                             'per block: lost %r unexpected %r'
-                            % (sorted(tuple(sorted(k)) for k in set(m.c) - set(got.c))[:3],
-                               sorted(tuple(sorted(k)) for k in set(got.c) - set(m.c))[:3]))
+                            % (sorted(set(m.c) - set(got.c))[:3], sorted(set(got.c) - set(m.c))[:3]))
         if not self.PHYSICS:
             return
         for n in proc:
@@ -699,7 +726,7 @@ class GridMachineBase(Machine):
                     raise Violation('P5', 'MINC continuum %r has volume %r, requested fraction '
                                     '%r of %r' % (x, v, f, V))
             for a, b in zip(names[:-1], names[1:]):
-                c = got.c[frozenset((a, b))]
+                c = got.c[(a, b)]
                 if (c['first'], c['second']) != (a, b):
                     raise Violation('P5', 'MINC chain connection %r is listed %r->%r'
                                     % ((a, b), c['first'], c['second']))
@@ -757,7 +784,7 @@ class GridMachineBase(Machine):
         self.model.c.update(om.c)
         self.model.r |= om.r
         self.model.b[host.name][0] -= subvol
-        self.model.c[frozenset((host.name, target.name))] = {
+        self.model.c[(host.name, target.name)] = {
             'first': host.name, 'second': target.name, 'area': 2.0, 'direction': 1 + ch[3] % 3,
             'dist': {host.name: 0.5, target.name: 0.25}, 'dircos': 0.0}
         self.grid = res
@@ -819,7 +846,7 @@ class GridMachineBase(Machine):
                 v['first'], v['second'] = mp.get(v['first'], v['first']), \
                     mp.get(v['second'], v['second'])
                 v['dist'] = dict((mp.get(nm, nm), d) for nm, d in v['dist'].items())
-                newc[frozenset((v['first'], v['second']))] = v
+                newc[(v['first'], v['second'])] = v
             m.c = newc
         if self.persist_binary:
             # the binary files hold 0.0 where a connection has no gravity cosine
@@ -948,18 +975,21 @@ class _SweepMixin(object):
         if ch[1] % 2:
             a, b = b, a
         na, nb = UNIVERSE[a], UNIVERSE[b]
-        if na not in g.block or nb not in g.block or frozenset((na, nb)) in self.model.c:
+        if na not in g.block or nb not in g.block or (na, nb) in self.model.c or \
+                (nb, na) in self.model.c:
             return False
         self.call(lambda: g.add_connection(self.tg.t2connection(
             [g.block[na], g.block[nb]], 2, [0.5, 1.5], 3.0, 0.6)), 'add_connection')
-        self.model.c[frozenset((na, nb))] = {'first': na, 'second': nb, 'area': 3.0,
+        self.model.c[(na, nb)] = {'first': na, 'second': nb, 'area': 3.0,
                                              'direction': 2, 'dist': {na: 0.5, nb: 1.5},
                                              'dircos': 0.6}
 
     def op_XDELC(self, ch):
         g = self.grid
         a, b = PAIRS[ch[0] % 6]
-        key = frozenset((UNIVERSE[a], UNIVERSE[b]))
+        key = (UNIVERSE[a], UNIVERSE[b])
+        if key not in self.model.c:
+            key = key[::-1]
         if key not in self.model.c:
             return False
         m = self.model.c[key]
@@ -981,7 +1011,7 @@ class _SweepMixin(object):
             v = dict(v)
             v['first'], v['second'] = mp.get(v['first'], v['first']), mp.get(v['second'], v['second'])
             v['dist'] = dict((mp.get(nm, nm), d) for nm, d in v['dist'].items())
-            newc[frozenset((v['first'], v['second']))] = v
+            newc[(v['first'], v['second'])] = v
         m.c = newc
         return len(mp)
 
@@ -993,7 +1023,7 @@ class _SweepMixin(object):
         if mode >= 1 and g.connectionlist:
             cn = [tuple(b.name for b in c.block) for c in g.connectionlist][::-1]
             if mode == 2:
-                cn = [c[::-1] for c in cn]
+                cn = [c[::-1] if c[::-1] not in g.connection else c for c in cn]
         if bn is None and cn is None:
             return False
         self.call(lambda: g.reorder(bn, cn), 'reorder')
